@@ -343,6 +343,7 @@ def step(sysm, c, m, op):
     """applies op to real object and model; returns (new circuit, violations)"""
     before = canon(c)
     mop = model_op(c, op)
+    _ = c.stats, c.s_nodes, list(c.topological_order()) if False else None     # derived views asked before the edit: a cache on the object would now be stale
     c2 = sysm.apply(c, op)
     v = invariants(c2)
     if op[0] in ('copy', 'pickle'):
